@@ -16,7 +16,7 @@ def replay_cases(ctx, recs):
 
 
 def run(ctx):
-    ctx.rule = ("every set of <= MaxRules rules of a 16-rule pool (generic, generic with an excluded domain, one/many domains, listed "
+    ctx.rule = ("every set of <= MaxRules rules of an 18-rule pool (generic, generic with an excluded domain, one/many domains, listed "
                 "and excluded sub-domain, wildcard TLD, duplicate selectors, exceptions of each kind) x 7 hostnames (listed, sub-domain, "
                 "sub-sub-domain, sibling, second listed, wildcard hit, look-alike) x 8 flag combinations, through CosmeticEngine.Match "
                 "and Engine.GetCosmeticResult, in seeded list orders and splits. distinct_nontrivial = (rule set, host) pairs with a "
